@@ -50,7 +50,7 @@ def _on_alarm(signum, frame):
     raise CaseTimeout()
 
 
-CASE_TIMEOUT = float(os.environ.get('VERIF_CASE_TIMEOUT', '150'))
+CASE_TIMEOUT = float(os.environ.get('VERIF_CASE_TIMEOUT', '400'))  # (wall clock on a possibly loaded machine: generous; the slowest cases take 5-20 s on an idle one)
 
 
 def main(argv=None):
